@@ -371,9 +371,35 @@ def lib_signatures():
 class Host:
     """a ProofExp carrying the axioms + an imported Propositional for the library lemmas"""
 
-    def __init__(self, axioms):
+    def __init__(self, axioms, graph=None, P=None):
+        """graph = {'subs': {name: {'axs': [pat spec], 'imports': [name]}}, 'imports': [name]}: an import graph below the
+        top module.  A name is ONE ProofExp instance (importing it from two places is a diamond, listing it twice imports
+        the same submodule twice); a name ending in '!' gives a fresh instance per import."""
         self.m = ProofExp(axioms=list(axioms))
+        self.subs = {}
+        self.graph = graph
+        self.P = P or mk_pat
+        if graph:
+            for name in graph.get('imports', []):
+                self.m.import_module(self.sub(name))
         self.prop = self.m.import_module(Propositional())
+
+    def sub(self, name):
+        if name in self.subs and not name.endswith('!'):
+            return self.subs[name]
+        spec = self.graph['subs'][name]
+        sm_ = ProofExp(axioms=[self.P(a) for a in spec.get('axs', [])])
+        self.subs[name] = sm_
+        for imp in spec.get('imports', []):
+            sm_.import_module(self.sub(imp))
+        return sm_
+
+    def owner(self, axiom):
+        """the module whose load_axiom accepts this axiom: the top module first, then the submodules"""
+        for mod_ in [self.m] + list(self.subs.values()):
+            if axiom in mod_._axioms:
+                return mod_
+        return self.m
 
     def build(self, s):
         k = s[0]
@@ -397,7 +423,8 @@ class Host:
         if k == 'inst':
             return m.instantiate(self.build(s[1]), {kk: mk_pat(p) for kk, p in s[2]})
         if k == 'ax':
-            return m.load_axiom(mk_pat(s[1]))
+            a = mk_pat(s[1])
+            return (self.owner(a) if len(s) > 2 and s[2] == 'any' else m).load_axiom(a)
         if k == 'lib':
             args = []
             for a in s[2]:
@@ -697,6 +724,8 @@ class Gen:
             # mostly positive bodies
             x = self.var()
             return ['mu', x, r.choice([['sv', x], ['imp', self.pat(depth - 2, 'concrete'), ['sv', x]], self.pat(depth - 1, style)])]
+        if c < 0.90 and style != 'concrete' and r.random() < 0.35:
+            return self.stacked_subst(depth)
         if c < 0.95 and style != 'concrete':
             head = ['mv', r.randrange(4), [], [], [], [], []]
             if r.random() < 0.2:
@@ -704,6 +733,25 @@ class Gen:
             k = 'es' if r.random() < 0.6 else 'ss'
             return [k, head, self.var(), self.pat(depth - 1, style)]
         return self.atom(style)
+
+    def stacked_subst(self, depth=1):
+        """phi[plug1/x][plug2/x]: two (or three) substitutions stacked on the SAME variable whose inner plug mentions that
+        variable again (so the outer one is not redundant: the variable is not fresh in the inner substitution).
+        Checker-well-formed; needs the exact e_fresh/s_fresh arms for ESubst/SSubst."""
+        r = self.r
+        x = self.var()
+        y = (x + 1 + r.randrange(3)) % 4
+        k = r.choice(['es', 'es', 'ss'])
+        v = (lambda n: ['ev', n]) if k == 'es' else (lambda n: ['sv', n])
+        inner_plug = r.choice([['app', v(x), v(y)], ['imp', v(x), ['sym', 's' + str(r.randrange(3))]], ['app', ['sym', 's0'], v(x)]])
+        p = [k, ['mv', r.randrange(4), [], [], [], [], []], x, inner_plug]
+        for _ in range(r.choice([1, 1, 2])):
+            outer_plug = r.choice([['sym', 's' + str(r.randrange(3))], v(y), ['app', v(x), ['sym', 's1']],
+                                   self.pat(max(depth - 2, 0), 'concrete')])
+            if outer_plug == v(x):
+                outer_plug = ['sym', 's2']
+            p = [k, p, x, outer_plug]
+        return p
 
     def style(self):
         return self.r.choice(['concrete', 'schematic', 'schematic', 'notation', 'notation'])
@@ -894,9 +942,9 @@ def build_module(mod, expanded=False):
     install_reifier()
     P = (lambda s: expand(mk_pat(s))) if expanded else mk_pat
     axioms = [P(a) for a in mod.get('axs', [])]
-    host = Host(axioms)
+    host = Host(axioms, mod.get('graph'), P)
     if expanded:
-        thunks0 = [Host([mk_pat(a) for a in mod.get('axs', [])]).build(t) for t in mod['proofs']]
+        thunks0 = [Host([mk_pat(a) for a in mod.get('axs', [])], mod.get('graph')).build(t) for t in mod['proofs']]
         thunks = [rebuild_expanded(host, th._pt) for th in thunks0]
     else:
         thunks = [host.build(t) for t in mod['proofs']]
@@ -912,7 +960,7 @@ def build_module(mod, expanded=False):
         m._claims.append(c)
     for th in thunks:
         m._proof_expressions.append(th)
-    return m, thunks, axioms, claims
+    return m, thunks, gamma_axioms(m), claims      # axioms in gamma-phase order (submodules first, duplicates kept)
 
 
 def rebuild_expanded(host, pt):
@@ -935,7 +983,8 @@ def rebuild_expanded(host, pt):
     if k == 'inst':
         return m.instantiate(rebuild_expanded(host, pt[1]), {kk: expand(p) for kk, p in pt[2]})
     if k == 'ax':
-        return m.load_axiom(expand(pt[1]))
+        a = expand(pt[1])
+        return host.owner(a).load_axiom(a)
     raise ValueError(k)
 
 
@@ -1037,6 +1086,32 @@ def gen_modules(seedstr, n, illformed=False):
         if not proofs:
             continue
         mod = {'axs': axs, 'proofs': proofs, 'claims': None}
+        if rng.random() < 0.35:
+            # import graphs with repeated submodules / duplicate axioms, and a load of an axiom declared AFTER the duplicates
+            g = Gen(rng)
+            base_ax = [g.pat(rng.randrange(1, 3), rng.choice(['concrete', 'schematic'])) for _ in range(rng.choice([1, 1, 2]))]
+            shape = rng.choice(['diamond', 'twice', 'two-instances', 'dup-in-module', 'chain-dup'])
+            own = list(axs) if axs else [g.pat(2, 'concrete')]
+            if shape == 'diamond':
+                graph = {'subs': {'base': {'axs': base_ax}, 'left': {'axs': [g.pat(1, 'concrete')] if rng.random() < 0.5 else [], 'imports': ['base']},
+                                  'right': {'axs': [], 'imports': ['base']}}, 'imports': ['left', 'right']}
+            elif shape == 'twice':
+                graph = {'subs': {'base': {'axs': base_ax}}, 'imports': ['base', 'base']}
+            elif shape == 'two-instances':
+                graph = {'subs': {'base!': {'axs': base_ax}}, 'imports': ['base!', 'base!']}
+            elif shape == 'chain-dup':
+                graph = {'subs': {'base': {'axs': base_ax + base_ax[:1]}, 'mid': {'axs': base_ax[:1], 'imports': ['base']}}, 'imports': ['mid']}
+            else:
+                graph = None
+                own = base_ax + base_ax[:1] + own
+            mod['axs'] = own
+            if graph:
+                mod['graph'] = graph
+            mod['shape'] = shape
+            late = own[-1]
+            mod['proofs'] = proofs + [rng.choice([['ax', late], ['mp', ['dyn', ['p1'], [[0, late], [1, base_ax[0]]]], ['ax', late]]])]
+            if rng.random() < 0.5:
+                mod['proofs'].append(['ax', base_ax[0], 'any'])
         if illformed:
             x = rng.randrange(3)
             kind = rng.choice(['mu', 'redundant-e', 'redundant-s', 'holes', 'capture', 'constraints', 'claims', 'fresh-drop'])
@@ -1044,17 +1119,17 @@ def gen_modules(seedstr, n, illformed=False):
             if kind == 'mu':
                 ill = ['mu', x, rng.choice([['imp', ['sv', x], botp], ['imp', ['imp', ['sv', x], ['sv', x]], ['sv', x]],
                                             ['app', ['sym', 's0'], ['imp', ['sv', x], ['ev', 0]]]])]
-                mod['proofs'] = proofs + [['dyn', ['p1'], [[rng.randrange(2), ill]]]]
+                mod['proofs'] = mod['proofs'] + [['dyn', ['p1'], [[rng.randrange(2), ill]]]]
             elif kind == 'redundant-e':
                 ill = rng.choice([['es', mv(0), x, ['ev', x]], ['es', mv(1, ef=[x]), x, ['sym', 's1']]])
-                mod['proofs'] = proofs + [['dyn', ['p2'], [[rng.randrange(3), ill]]]]
+                mod['proofs'] = mod['proofs'] + [['dyn', ['p2'], [[rng.randrange(3), ill]]]]
             elif kind == 'redundant-s':
                 ill = rng.choice([['ss', mv(0), x, ['sv', x]], ['ss', mv(1, sf=[x]), x, ['sym', 's1']]])
-                mod['proofs'] = proofs + [['dyn', ['p1'], [[rng.randrange(2), ill]]]]
+                mod['proofs'] = mod['proofs'] + [['dyn', ['p1'], [[rng.randrange(2), ill]]]]
             elif kind == 'holes':
-                mod['proofs'] = proofs + [['dyn', ['p1'], [[0, mv(2, ef=[x], holes=[x])]]]]
+                mod['proofs'] = mod['proofs'] + [['dyn', ['p1'], [[0, mv(2, ef=[x], holes=[x])]]]]
             elif kind == 'capture':
-                mod['proofs'] = proofs + [['dyn', ['q'], [[0, ['ex', 1, rng.choice([['ev', 0], ['app', ['ev', 0], ['sym', 's2']]])]]]]]
+                mod['proofs'] = mod['proofs'] + [['dyn', ['q'], [[0, ['ex', 1, rng.choice([['ev', 0], ['app', ['ev', 0], ['sym', 's2']]])]]]]]
             elif kind == 'constraints':
                 ax = rng.choice([mv(0, ef=[x]), ['imp', mv(0, sf=[x]), mv(1)], mv(0, pos=[x]), mv(0, neg=[x])])
                 plug = {'ef': ['ev', x], 'sf': ['sv', x]}
@@ -1066,14 +1141,14 @@ def gen_modules(seedstr, n, illformed=False):
                     pl = ['imp', ['sv', x], botp]
                 else:
                     pl = ['sv', x]
-                mod['axs'] = axs + [ax]
-                mod['proofs'] = proofs + [['dyn', ['ax', ax], [[0, pl]]]]
+                mod['axs'] = mod['axs'] + [ax]
+                mod['proofs'] = mod['proofs'] + [['dyn', ['ax', ax], [[0, pl]]]]
             elif kind == 'fresh-drop':
                 # generator: MetaVar.apply_esubst drops the substitution when the variable is declared fresh;
                 # checker: keeps it (and rejects it as redundant already at construction)
                 ax = ['imp', ['es', mv(0), x, ['sym', 's0']], mv(1)]
-                mod['axs'] = axs + [ax]
-                mod['proofs'] = proofs + [['dyn', ['ax', ax], [[0, mv(3, ef=[x])]]]]
+                mod['axs'] = mod['axs'] + [ax]
+                mod['proofs'] = mod['proofs'] + [['dyn', ['ax', ax], [[0, mv(3, ef=[x])]]]]
             else:
                 mod['claims_extra'] = [['imp', ['sym', 'sX'], ['sym', 'sX']]]
         mods.append(mod)
